@@ -24,7 +24,7 @@ class C13(Check):
     SHRINK = False
     RULE = ('time-stamp sequences of length 1..60 with dyadic jitter around the period (gaps exactly at both tolerance ends included), periods and units '
             'from {1s, 500ms, 250ms, 2s, 4000us, ...}, default unit s/ms/us, dyadic tolerances in [0,1]; online (one update per stamp) and offline (time column), '
-            'dedicated and combined specification objects; counter compared with the count of out-of-tolerance gaps computed exactly; values compared with a '
+            'dedicated and combined specification objects, offline objects that already evaluated another badly sampled data set; counter compared with the count of out-of-tolerance gaps computed exactly; values compared with a '
             'run on perfectly periodic stamps; non-trivial = at least one gap out of tolerance and one inside; distinct by (stamps, period, unit, tolerance)')
 
     def gen_cases(self, rng, tier):
@@ -60,8 +60,14 @@ class C13(Check):
             if not ok:
                 continue
             cols = fml.gen_trace(rng, 1, n)
-            cases.append({'f': f, 'n': n, 'nv': 1, 'cols': cols, 'ts': [float(x) for x in ts], 'period': [p, pu, float(tol)], 'unit': du,
-                          'expected': count_bad(P, tol, ts), 'ngaps': n - 1, 'mon': rng.choice(['online', 'offline']), 'ctor': rng.choice(['split', 'combined'])})
+            mon = rng.choice(['online', 'offline'])
+            # an offline object that has already evaluated another (badly sampled) data set: the counter reports on the data set just supplied
+            prior = None
+            if mon == 'offline' and rng.random() < 0.4:
+                m = rng.choice([2, 3, 4])
+                prior = {'time': [float(k * P * rng.choice([1, 2, 4])) if (k * P * 4).denominator == 1 else float(k) for k in range(m)], 'xa': fml.gen_trace(rng, 1, m)[0]}
+            cases.append({'f': f, 'n': n, 'nv': 1, 'cols': cols, 'ts': [float(x) for x in ts], 'period': [p, pu, float(tol)], 'unit': du, 'prior': prior,
+                          'expected': count_bad(P, tol, ts), 'ngaps': n - 1, 'mon': mon, 'ctor': rng.choice(['split', 'combined'])})
         return cases
 
     def model_lines(self, c):
@@ -76,7 +82,8 @@ class C13(Check):
             a = dict(base, monitor='discrete-online', calls=[['update', c['ts'][k], [['xa', c['cols'][0][k]]]] for k in range(n)] + [['counter']])
             b = dict(base, monitor='discrete-online', calls=[['update', k * 1.0, [['xa', c['cols'][0][k]]]] for k in range(n)] + [['counter']])
         else:
-            a = dict(base, monitor='discrete-offline', calls=[['evaluate', {'time': c['ts'], 'xa': c['cols'][0]}], ['counter']])
+            pre = [['evaluate', c['prior']]] if c.get('prior') else []
+            a = dict(base, monitor='discrete-offline', calls=pre + [['evaluate', {'time': c['ts'], 'xa': c['cols'][0]}], ['counter']])
             b = dict(base, monitor='discrete-offline', calls=[['evaluate', {'time': [k * 1.0 for k in range(n)], 'xa': c['cols'][0]}], ['counter']])
         return [a, b]
 
@@ -86,7 +93,7 @@ class C13(Check):
             return 'model-error', mlines
         model_cnt = int(m['COUNT'][0])
         spec_cnt = int(m['SPEC'][0])
-        det = {'period': c['period'], 'unit': c['unit'], 'monitor': c['mon'], 'ctor': c['ctor'], 'stamps': c['ts'],
+        det = {'period': c['period'], 'unit': c['unit'], 'monitor': c['mon'], 'ctor': c['ctor'], 'stamps': c['ts'], 'evaluated_before': c.get('prior'),
                'expected': {'source': 'number of gaps outside [P(1-tol), P(1+tol)], P in time-stamp units', 'counter': c['expected']}}
         a, b = ires
         for i in (a, b):
@@ -101,7 +108,7 @@ class C13(Check):
         va = [r['value'] for r in a['calls'][:-1]]
         vb = [r['value'] for r in b['calls'][:-1]]
         if c['mon'] == 'offline':
-            va = [p[1] for p in va[0]]
+            va = [p[1] for p in va[-1]]
             vb = [p[1] for p in vb[0]]
         if va != vb:
             return 'violation', dict(det, expected='values independent of the time-stamps', observed={'jittered': va, 'periodic': vb})
@@ -113,16 +120,16 @@ class C13(Check):
         return 0 < c['expected'] < c['ngaps']
 
     def features(self, c):
-        return ['unit_' + c['unit'], 'punit_' + c['period'][1], c['mon'], c['ctor'], 'tol_%s' % c['period'][2], 'n1' if c['n'] == 1 else 'n>1']
+        return ['unit_' + c['unit'], 'punit_' + c['period'][1], c['mon'], c['ctor'], 'tol_%s' % c['period'][2], 'n1' if c['n'] == 1 else 'n>1'] + (['second_evaluate'] if c.get('prior') else [])
 
     def key(self, c):
-        return json.dumps([c['ts'], c['period'], c['unit'], c['mon'], c['ctor']])
+        return json.dumps([c['ts'], c['period'], c['unit'], c['mon'], c['ctor'], c.get('prior')])
 
     def describe(self, c):
         return {'stamps': c['ts'], 'period': c['period'], 'unit': c['unit'], 'monitor': c['mon'], 'expected_counter': c['expected']}
 
     def signature(self, c, detail):
-        return {'mon': c['mon'], 'ctor': c['ctor'], 'unit_eq': c['unit'] == c['period'][1], 'ops': []}
+        return {'mon': c['mon'], 'ctor': c['ctor'], 'unit_eq': c['unit'] == c['period'][1], 'ops': [], 'second_evaluate': bool(c.get('prior'))}
 
 
 def main(tier, seed, replay=None):
